@@ -23,7 +23,11 @@ def seeded():
         wf = [p for p, r in c.get("checks", {}).items() if r.get("with_failing_input")]
         def cell(x):
             return re.sub(r"\s+", " ", str(x or "")).replace("|", "&#124;")[:260]
-        rows.append(f"| `seeded/{d.name}` | {', '.join(j.get('breaks', []))} | {cell(j.get('summary'))} | {cell(j.get('needs'))} | {cell(c.get('suite_with_change'))} | {', '.join(caught) or '**missed**'} | {', '.join(wf) or ('no-failing-input-found' if caught else '—')} |")
+        sup = j.get("superseded")
+        by = ', '.join(caught) or '**missed**'
+        if sup:
+            by += f" (as confirmed at {c.get('base')}; {cell(sup)})"
+        rows.append(f"| `seeded/{d.name}` | {', '.join(j.get('breaks', []))} | {cell(j.get('summary'))} | {cell(j.get('needs'))} | {cell(c.get('suite_with_change'))} | {by} | {', '.join(wf) or ('no-failing-input-found' if caught else '—')} |")
     return "\n".join(rows)
 
 def theorems():
